@@ -739,6 +739,10 @@ def r9(ctx, rep):
             ("codegen::ast::<Expr as WriteSource>::write", "unbound_expr", "false"),          # after `alias = `
             ("codegen::ast::<ExprKind as WriteSource>::write", "unbound_expr", "true"),       # arguments of a function call
             ("codegen::WriteSource::write_between", "context_strength", "0"),                 # inside brackets
+            ("codegen::ast::<Expr as WriteSource>::write", "context_strength", "0"),          # inside the parentheses of `(alias = expr)` (R14)
+            ("codegen::ast::<Expr as WriteSource>::write", "unbound_expr", "false"),
+            ("codegen::ast::<Stmt as WriteSource>::write", "context_strength", "0"),          # inside the parentheses of `@( .. )` (R14)
+            ("codegen::ast::<SwitchCase as WriteSource>::write", "context_strength", "opt.context_strength.max(8)"),   # case arms are read as calls (R14)
             ("codegen::WriteSource::write_between", "unbound_expr", "false")}
     for w in sorted(writers - want):
         rep.bad(f"layout-writer:{w[0]}:{w[1]}={w[2]}", f"{w[0]} sets `{w[1]} = {w[2]}`: this flag decides whether a leading unary operator needs parentheses (`f (-a) + b`) / which parentheses are dropped; "
@@ -906,6 +910,78 @@ def r13(ctx, rep):
     rep.check(n >= 1, "sites", f"expected the Main/Into arm of Stmt::write that unwraps a pipeline into lines, found {n} such arm(s)")
 
 
+def r14(ctx, rep):
+    rep.rule("C14.R14", "constructs that exist only inside parentheses, or only escaped, are written that way (defects found by probing the unchanged tree, findings_detail/c14_hunt)", floor=8)
+    syn = ctx.syn
+    cg_fns = [x for x in syn.fns if x["crate"] == "prqlc" and x["file"].endswith("codegen/ast.rs") and "body" in x]
+
+    def fn_(name, self_part=None):
+        c = [x for x in cg_fns if x["name"] == name and (self_part is None or self_part in (x.get("self_short") or x["path"]))]
+        if len(c) != 1:
+            raise AnchorMissing(f"codegen/ast.rs: {self_part or ''}::{name} (found {len(c)})")
+        return c[0]
+    ew = [x for x in cg_fns if x["name"] == "write" and (x.get("self_short") == "Expr" or "<Expr as" in x["path"])]
+    if len(ew) != 1:
+        raise AnchorMissing("<pr::Expr as WriteSource>::write")
+    ew = ew[0]
+    # (1) an aliased operand of an operator is written `(alias = expr)`
+    ok = any(n.get("k") == "if" and "alias" in show(n["c"], maxdepth=8) and "context_strength" in show(n["c"], maxdepth=8)
+             and any(x.get("k") == "return" for x in walk(n["t"])) and any("(" in str(v) for v in strs(n["t"])) for n in walk(ew["body"]))
+    rep.check(ok, "alias-on-operand", "Expr::write must parenthesise an aliased expression that is the operand of an operator (a test of `self.alias` together with `opt.context_strength` that returns "
+              "`(alias = expr)`): `(a = 1) + 2` was printed `a = 1 + 2`, which does not parse", file=ew["file"], line=ew["l"], fn=ew["path"])
+    kw = [x for x in cg_fns if x["name"] == "write" and "ExprKind" in (x.get("self_short") or x["path"])][0]
+    arms = {last_seg(str(pat_head(a["pat"]))): a for m_ in matches_of(kw["body"]) for a in m_["arms"]}
+    # (2) named parameters print their type like positional ones
+    fa = arms.get("Func")
+    loops = [n for n in walk(fa["body"]) if n.get("k") == "for"] if fa else []
+    named = [n for n in loops if "named_params" in show(n.get("e", n.get("iter")), maxdepth=6)]
+    posit = [n for n in loops if re.search(r"\.params\b", show(n.get("e", n.get("iter")), maxdepth=6)) and "named_params" not in show(n.get("e", n.get("iter")), maxdepth=6)]
+    has_ty = lambda lp: any(x.get("k") == "field" and x.get("f") == "ty" for x in walk(lp["body"]))
+    rep.check(len(named) == 1 and len(posit) == 1 and has_ty(posit[0]) and has_ty(named[0]), "named-param-type", "the Func arm writes `param.ty` for positional parameters; it must do so for named "
+              "parameters too (`func y <int>:1 -> y` lost `<int>`)", file=kw["file"], line=fa["l"] if fa else kw["l"], fn=kw["path"])
+    # (7) a parameter before `..`
+    ra = arms.get("Range")
+    ok = ra is not None and any(x.get("k") in ("p_ts", "p_path", "path") and last_seg(x.get("p", "")) == "Param" for x in walk(ra["body"]))
+    rep.check(ok, "param-before-range", "the Range arm must set a parameter that starts the range apart (`($a)..5`): the lexer reads `$a..5` as ONE parameter named `a..5`",
+              file=kw["file"], line=ra["l"] if ra else kw["l"], fn=kw["path"])
+    # (8, 9) everything inside an interpolated string literal is escaped
+    di = fn_("display_interpolation")
+    ea = [a for m_ in matches_of(di["body"]) for a in m_["arms"] if "Expr" in show(a["pat"]) and "InterpolateItem" in show(a["pat"])]
+    esc_calls = 0
+    if ea:
+        escapers = {show(st["pat"]) for st in walk(di["body"]) if st.get("k") == "local" and (st.get("init") or {}).get("k") == "closure" and "replace(" in show(st["init"], maxdepth=10)}
+        for x in walk(ea[0]["body"]):
+            if x.get("k") == "call" and show(x["f"]) in escapers:
+                esc_calls += 1
+            if x.get("k") == "mcall" and x["m"] == "replace" and x["a"] and lit_val(x["a"][0]) == '"':
+                esc_calls += 1
+    rep.check(bool(ea) and esc_calls >= 2, "interpolation-escaped", f"display_interpolation writes the expression and the format of `{{expr:format}}` into a double-quoted literal: both must have `\\` and `\"` escaped "
+              f"(found {esc_calls} escaped part(s)); `f\"{{a:\\\"}}\"` was printed `f\"{{a:\"}}\"`", file=di["file"], line=di["l"], fn=di["path"])
+    # (4) case arms are read as call-level expressions
+    sw = [x for x in cg_fns if x["name"] == "write" and "SwitchCase" in (x.get("self_short") or x["path"])]
+    ok = len(sw) == 1 and any(n.get("k") == "assign" and show(n["lhs"]).endswith("context_strength") for n in walk(sw[0]["body"]))
+    rep.check(ok, "case-arm-context", "SwitchCase::write must raise `context_strength` before writing the condition and the value: both are read as `func_call(expr)`, so a lambda there needs parentheses",
+              file=sw[0]["file"] if sw else kw["file"], line=sw[0]["l"] if sw else kw["l"], fn=sw[0]["path"] if sw else kw["path"])
+    # (5, 6) `@` is followed by one term
+    st = [x for x in cg_fns if x["name"] == "write" and (x.get("self_short") == "Stmt" or "<Stmt as" in x["path"])][0]
+    al = [n for n in walk(st["body"]) if n.get("k") == "for" and "annotations" in show(n.get("e", n.get("iter")), maxdepth=6)]
+    ok = len(al) == 1 and any("(" in str(v) for v in strs(al[0]["body"])) and any(x.get("k") == "if" or x.get("k") == "match" for x in walk(al[0]["body"]))
+    rep.check(ok, "annotation-term", "the annotation loop of Stmt::write must put anything but a tuple / name into parentheses: `@(f x)` was printed `@f x` (annotation `@f`, statement `x`) and `@(10)` as the "
+              "time literal `@10`", file=st["file"], line=al[0]["l"] if al else st["l"], fn=st["path"])
+    # recorded and not repaired: doc comments, the name `*`, strings that need an escape after all
+    docs = any("doc_comment" in show_stmts(x["body"], maxdepth=20) for x in syn.fns if x["crate"] == "prqlc" and "/codegen/" in x["file"] and "body" in x)
+    rep.check(docs, "doc-comments", "nothing under codegen/ reads `doc_comment`: `#! doc` lines are dropped by `prqlc fmt` (the trees differ; between two pipeline lines the program changes)",
+              file=st["file"], line=st["l"], fn=st["path"])
+    vi = fn_("valid_prql_ident")
+    star = any(isinstance(v, str) and "\\*" in v for v in strs(vi["body"]))
+    rep.check(not star, "star-name", "valid_prql_ident accepts `*`, so write_ident_part prints a declaration, alias or parameter called `*` without back-ticks (``let `*` = 1`` -> `let * = 1`, which does not "
+              "parse); a bare `*` is only the last part of a path", file=vi["file"], line=vi["l"], fn=vi["path"])
+    qs = [x for x in syn.fns if x["crate"] == "prqlc_parser" and x["name"] == "quote_string" and "body" in x]
+    esc = bool(qs) and any(x.get("k") == "mcall" and x["m"] in ("replace", "escape_default") for x in walk(qs[0]["body"]))
+    rep.check(esc, "quote-string-escape", "quote_string picks a delimiter and never escapes: a string that contains both quote characters and starts or ends with the chosen one (`'\"a\\''`) is printed with the "
+              "quote merged into the delimiter and does not lex", file=qs[0]["file"] if qs else None, line=qs[0]["l"] if qs else None, fn=qs[0]["path"] if qs else None)
+
+
 def run(ctx, rep):
-    for r in (r1, r2, r3, r4, r5, r7, r8, r9, r10, r11, r12, r13):
+    for r in (r1, r2, r3, r4, r5, r7, r8, r9, r10, r11, r12, r13, r14):
         rep.guard(r, ctx)
